@@ -18,7 +18,9 @@ import (
 // judge applies the life-cycle automaton to a finished session.
 func judge(s *lifex.Session) []string {
 	var fails []string
-	add := func(key, f string, a ...any) { fails = append(fails, fmt.Sprintf("VERIF-KEY:%s %s", key, fmt.Sprintf(f, a...))) }
+	add := func(key, f string, a ...any) {
+		fails = append(fails, fmt.Sprintf("VERIF-KEY:%s %s", key, fmt.Sprintf(f, a...)))
+	}
 	// per-connection event order from the engine-wide log
 	type lc struct{ open, traffic, close int }
 	seen := map[int]*lc{}
